@@ -120,6 +120,16 @@ def axis_bounds(draw, vals, sign, unit, gaps, kind):
             edges.append(vals[k] + sign * num * unit / 2)
         edges.append(vals[-1] + sign * last_half * unit / 2)
         rows = [[edges[k], edges[k + 1]] for k in range(n)]
+    elif kind == "overlap":
+        # cells reaching past their neighbours' edges (and sometimes short of them): a mix of
+        # overlaps and uncovered strips
+        rows = []
+        for k in range(n):
+            before = gaps[k - 1] if k > 0 else 4
+            after = gaps[k] if k < n - 1 else 4
+            lo_w = draw(st.integers(1, 2 * before))
+            hi_w = draw(st.integers(1, 2 * after))
+            rows.append([vals[k] - sign * lo_w * unit / 2, vals[k] + sign * hi_w * unit / 2])
     else:  # "gaps": every cell strictly inside its slot, leaving uncovered strips
         rows = []
         for k in range(n):
@@ -431,6 +441,9 @@ def ugrid_encoding(draw, supply=None, coords_as=None, allow_transpose=True, dtyp
         "edge_coords": edge_coords,
         # a boundary edge's single face may sit in either column of a supplied edge-face table
         "edge_face_fill_first": draw(st.booleans()),
+        # the face tables may be wider than the largest face (all-triangle mesh in a table
+        # four columns wide): the surplus column holds only fill
+        "pad_columns": draw(st.sampled_from([0, 0, 0, 1])),
     }
 
 
@@ -596,6 +609,8 @@ def dataset_spec(draw, convs=ALL_CONVS, max_vars=3, min_vars=1, max_extra=2,
                                   **(var_kwargs or {}))) if with_vars else []
     if conv != "cf1d" and draw(st.integers(0, 3)) == 0:
         spec["coord_dtype"] = "f4"
+    if conv == "arakawa":
+        spec["coord_names_order"] = list(draw(st.permutations(["face", "left", "back", "node"])))
     if dim_coords and draw(st.integers(0, 3)) == 0:
         spec["dim_coords"] = draw(dimension_coordinates(spec))
     spec["mode"] = draw(st.sampled_from(list(modes)))
